@@ -18,7 +18,9 @@ TNext == UNCHANGED ri
 TSpec == TInit /\ [][TNext]_ri
 
 Judge ==
-  LET w == IF PropSel = "C13" THEN C13(Recs[ri]) ELSE PropsOf(PropSel, Recs[ri].cfg, Recs[ri].obs) IN
+  LET w == IF PropSel = "C13" THEN C13(Recs[ri])
+           ELSE IF PropSel = "C20" THEN C20(Recs[ri])
+           ELSE PropsOf(PropSel, Recs[ri].cfg, Recs[ri].obs) IN
   \/ w = {}
   \/ PrintT(<<"VIOL", ToJson([id |-> Recs[ri].id, w |-> w])>>)
 =============================================================================
